@@ -14,7 +14,7 @@ SIS_MOVES = [[1, 2, 2], [2, 1, 0]]
 
 
 def scenarios(tier, seed):
-    fam = simruns.graph_family(seed, 6 if tier == "quick" else 40, max_n=10 if tier == "quick" else 14)
+    fam = simruns.graph_family(seed, 16 if tier == "quick" else 40, max_n=12 if tier == "quick" else 14)
     rates = [(1.0, 1.0), (2.0, 0.5), (0.0, 1.0), (1.0, 0.0), (0.0, 0.0)]
     out = []
     rng = pyrandom.Random(seed + 4)
@@ -63,13 +63,13 @@ def scenarios(tier, seed):
                         "long": True, "seed": 99 + (1 if weighted else 0)})
     # table-driven fast_nonMarkov_SIS whose durations and delays are small multiples of one step: simultaneous events
     from harness import event_scn
-    for k, es in enumerate(event_scn.sis_lattice_scenarios(seed, 400 if tier == "quick" else 4000)):
+    for k, es in enumerate(event_scn.sis_lattice_scenarios(seed, 1000 if tier == "quick" else 4000)):
         out.append({"sim": "fast_nonMarkov_SIS(table rules, simultaneous events)", "sis_ties": es, "n": es["n"], "edges": [], "weights": None,
                     "tau": 1.0, "gamma": 1.0, "p": 0.5, "tmin": es["tmin"], "tmax": es["tmax"], "init_kw": {}, "weighted": False, "seed": k})
     # generic simulators: any user model, the legal moves are the model's own edges
     from harness import contagion
     mrng = pyrandom.Random(seed + 404)
-    for k in range(300 if tier == "quick" else 3000):
+    for k in range(800 if tier == "quick" else 3000):
         mname = mrng.choice(sorted(contagion.MODELS))
         sts, sp, ind = contagion.MODELS[mname]
         n = mrng.randint(2, 7)
@@ -90,7 +90,7 @@ def scenarios(tier, seed):
                     "ic": [mrng.choice(sts) for _ in range(n)], "seed": k, "tmin": tmin, "tmax": tmin + mrng.choice([0.5, 2.0, 6.0]),
                     "tau": 1.0, "gamma": 1.0, "init_kw": {}})
     from harness import complexc
-    for k in range(200 if tier == "quick" else 2000):
+    for k in range(500 if tier == "quick" else 2000):
         mname = mrng.choice(sorted(complexc.MODELS))
         n = mrng.randint(2, 6)
         adj = [[0] * n for _ in range(n)]
